@@ -31,6 +31,7 @@ type World struct {
 	SSA      map[string]*ssa.Package // module packages by import path
 	LoadS    float64
 	SSAS     float64
+	Promoted int // captured locals promoted to registers (mem2reg.go)
 	NFuncs   int
 	funcsMod []*ssa.Function // all functions (incl. anonymous) of production module packages
 	cg       *CallGraph
@@ -133,6 +134,13 @@ func LoadWorld(repo, tier string) (*World, error) {
 	}
 	w.SSAS = time.Since(t1).Seconds()
 	w.collectFuncs()
+	// register promotion of locals that are only *read* by function literals (mem2reg.go): whether a logging or
+	// telemetry closure mentions a variable must not change what the rules see of the enclosing function
+	if os.Getenv("C4E_NOPROMOTE") == "" {
+		for _, f := range w.funcsMod {
+			w.Promoted += promoteCaptured(f)
+		}
+	}
 	return w, nil
 }
 
